@@ -95,6 +95,12 @@ def prN : Params ℚ := { prA with gnInterval := 0, lsStrictness := 0, maxNoProg
 def rN : Result ℚ Unit :=
   run OA dirZero PA () prN (stopAt none) false [1, 1/2] [] [] [] [] [] 0 0
 
+/-- the same with `max_no_progress = 0`: every iteration is tested, `NoProgress` after the first unchanged
+    iterate -/
+def prN0 : Params ℚ := { prN with maxNoProgress := 0 }
+def rN0 : Result ℚ Unit :=
+  run OA dirZero PA () prN0 (stopAt none) false [1, 1/2] [] [] [] [] [] 0 0
+
 def rM : Result ℚ Unit :=
   run OA (dirOf 1 3) PA () prM (stopAt none) false [1, 1/2] [7] [8] [9] [] [] 0 0
 
